@@ -158,6 +158,10 @@ FONTFILES = [
     ("vector", []),
     # the boundary codes 0, 1, 255 are codes; 256 and -1 are not
     ("vector", [(0, "alpha"), (1, "beta"), (255, "gamma"), (256, "delta"), (-1, "epsilon"), (128, "Euro"), (127, "bullet")]),
+    # "/Encoding StandardEncoding def" followed by "dup CODE /NAME put" lines: what those codes show is not judged (the
+    # puts do not address the encoding array in PostScript), every other code is StandardEncoding -- and the process-wide
+    # StandardEncoding table must come out of it unchanged (check_tables)
+    ("standard", [(65, "Euro"), (97, "bullet")]),
 ]
 SPELL = ["direct", "indirect"]
 
@@ -241,6 +245,8 @@ def type1_header(ff) -> bytes:
     )
     if ff[0] == "standard":
         out += b"/Encoding StandardEncoding def\n"
+        for code, name in (ff[1] if len(ff) > 1 else ()):
+            out += b"dup %d /%s put\n" % (code, name.encode())
     else:
         out += b"/Encoding 256 array\n0 1 255 {1 index exch /.notdef put} for\n"
         for code, name in ff[1]:
@@ -325,6 +331,9 @@ def build(vec: Tuple[int, ...], slots=None):
         hint = {c: R.agl_text(n) for c, n in R.latin_names("StandardEncoding").items()}
         hint.update(base_text)
         base_text = hint
+    if ff is not None and ff[0] == "standard" and len(ff) > 1:
+        for c, _ in ff[1]:
+            judged[c] = False
     if diff is not None:
         code = 0
         for x in diff:
